@@ -1,5 +1,5 @@
 /- L0 facts about the accessors, Display and Default of CommodityChannelIndex (split from Lemmas/CommodityChannelIndex.lean so that a change to one method only invalidates the facts about that method) -/
-import TaRs.Lemmas.CommodityChannelIndex
+import TaRs.Lemmas.Core.CommodityChannelIndex
 import TaRs.Lemmas.Misc.SimpleMovingAverage
 import TaRs.Lemmas.Misc.MeanAbsoluteDeviation
 set_option linter.unusedSectionVars false
